@@ -7,6 +7,7 @@ and prints one response per op.  Volatile state only: nothing survives the proce
 import hashlib
 import json
 import os
+import re
 import sys
 
 HERE = os.path.dirname(os.path.dirname(os.path.abspath(__file__)))
@@ -28,6 +29,15 @@ def _sha(b):
     return hashlib.sha256(b).hexdigest()
 
 
+_ADDR = re.compile(r"0x[0-9a-fA-F]{6,}")
+
+
+def _norm_msg(e):
+    """What the user reads on stderr when a program is refused: the exception text, with
+    memory addresses (the one legitimately process-dependent thing) blanked."""
+    return _ADDR.sub("0x?", str(e))
+
+
 def op_convert(op):
     from coco.b09.compiler import convert
     from coco.b09.configs import CompilerConfigs, StringConfigs
@@ -38,7 +48,8 @@ def op_convert(op):
             o["compiler_configs"] = CompilerConfigs(string_configs=StringConfigs(strname_to_size=sc))
         out = convert(op["text"], **o)
     except Exception as e:
-        return {"r": "REFUSED:" + type(e).__name__, "msg": str(e)[:200]}
+        return {"r": "REFUSED:%s:%s" % (type(e).__name__, _sha(_norm_msg(e))[:16]),
+                "msg": str(e)[:200]}
     return {"r": "OK:" + _sha(out), "len": len(out)}
 
 
